@@ -47,7 +47,7 @@ type monitor struct {
 	gasOpSeen, sstoreSeen, sawChild                                        bool
 	ops                                                                    [256]bool
 	top                                                                    *exitInfo // exit of the depth-0 frame
-	pendingOp                                                              gasEvt     // CallOpCode event waiting for its OnOpcode
+	pendingOp                                                              gasEvt    // CallOpCode event waiting for its OnOpcode
 	havePending                                                            bool
 	dupOpEvents                                                            int
 	reasons                                                                map[tracing.GasChangeReason]int
@@ -83,7 +83,7 @@ type frame struct {
 	memLen   int
 	maxMem   int
 	// children
-	forwarded   uint64    // CREATE: amount of the last forwardGas event
+	forwarded   uint64 // CREATE: amount of the last forwardGas event
 	haveForward bool
 	lastChild   *exitInfo // last exited child, consumed by the CallLeftOverRefunded event
 	leftover    tracing.Gas
